@@ -67,7 +67,7 @@ def concretise(s, models, texts, bigm_opts, rnd):
     c["opts"] += {"none": [], "valid": ["tech:idummy=3"], "unknown": [rnd.choice(["foo=1", "tech:nosuchopt=2", "acc:nothing=0"])],
                   "illtyped": [rnd.choice(["tech:idummy=abc", "objno=x1", "tech:ddummy=1e"])], "objno_range": ["objno=7"],
                   "solcount": ["sol:count=1"], "optfile_self": ["tech:optionfile=self.opt"], "optfile_missing": ["tech:optionfile=nosuchfile.opt"],
-                  "solstub": ["sol:stub=alt", "sol:count=1"]}[s["opt"]]
+                  "solstub": ["sol:stub=alt", "sol:count=1"], "warn2": []}[s["opt"]]
     if s["opt"] == "optfile_self":
         c["extra_files"] = {"self.opt": "tech:idummy=3\ntech:optionfile=self.opt\n"}
     nv, nc, no = len(m["vars"]), len(m.get("cons", [])), len(m.get("objs", []))
@@ -95,8 +95,8 @@ def run(tier):
     mc = tlc("MCDriver", "MCDriver.cfg", cwd=sd, workers=NPROC)
     tlc_must_pass(mc, "MCDriver")
     scen = printed_json(mc, "CASE")
-    if len(scen) != 3726:
-        raise Broken("expected 3726 scenarios, got %d" % len(scen))
+    if len(scen) != 4014:
+        raise Broken("expected 4014 scenarios, got %d" % len(scen))
     scen.sort(key=lambda s: json.dumps(s, sort_keys=True))
     exe = targets.get("h_drv")
     cfgs, acc = cvtcases.configs(exe)
@@ -110,7 +110,7 @@ def run(tier):
     for s in scen:
         for _ in range(reps):
             c = concretise(s, models, texts, bigm, rnd)
-            c.update(id=len(cases), answer="status 0 ok\nprimal auto\ndual auto\nobjvals 1\n" + ("interm 3\n" if s["opt"] == "solstub" else ""), s=s,
+            c.update(id=len(cases), answer="status 0 ok\nprimal auto\ndual auto\nobjvals 1\n" + ("interm 3\n" if s["opt"] == "solstub" else "") + ("warn 2\n" if s["opt"] == "warn2" else ""), s=s,
                      collect_sols="alt")
             cases.append(c)
     for c in cases:
@@ -132,7 +132,7 @@ def run(tier):
              "altBad": sum(1 for a_ in r.get("alt", []) if not a_["sol"] or (a_["sol"]["nvars"], a_["sol"]["ncons"]) != c["dims"]
                            or a_["sol"]["nprimal"] not in (0, a_["sol"]["nvars"]) or a_["sol"]["ndual"] not in (0, a_["sol"]["ncons"])),
              "altSeq": [a_["name"] for a_ in r.get("alt", [])] == ["alt%d.sol" % (i_ + 1) for i_ in range(len(r.get("alt", [])))],
-             "nsol": next((int(sf["vals"].get(0, -1)) for sf in (s["suffixes"] if s else []) if sf["name"] == "nsol"), -1)}
+             "nsol": next((int(sf["vals"].get(0, -1)) for sf in (s["suffixes"] if s else []) if sf["name"] == "nsol" and (sf["kind"] & 3) == 3), -1)}
         recs.append({"e": "Run", "id": c["id"], "s": c["s"], "o": o})
     res = validate_parallel("TraceDriver", "TraceDriver.cfg", recs, sd, "c09", chunks=4)
     verdicts = [v for r in res for v in printed_json(r, "VERDICT")]
